@@ -124,8 +124,9 @@ Start(c) ==
   /\ kdem = Markers(Exec(Fed(Supers[c.e], IF c.u = 0 THEN Catalog[c.e].broken ELSE Catalog[c.e].universes[c.u], <<>>),
                         c.doc, c.vars).data)
   /\ kat = {<<"Q", sg, "Q", <<>>>> : sg \in {j \in DOMAIN Catalog[c.e].sgs : HasName(Catalog[c.e].sgs[j].types, "Query")}}
+\* (mutations have effects, which this model does not describe: queries only)
 FedInit ==
-  \E e \in DOMAIN Catalog : \E u \in DOMAIN Catalog[e].universes : \E i \in DOMAIN Catalog[e].ops :
+  \E e \in DOMAIN Catalog : \E u \in DOMAIN Catalog[e].universes : \E i \in {j \in DOMAIN Catalog[e].ops : Catalog[e].ops[j].doc.op = "query"} :
      Start([e |-> e, u |-> u, i |-> i, doc |-> Catalog[e].ops[i].doc, vars |-> Catalog[e].ops[i].vars])
 \* negative control: a universe whose keys are NOT unique (two users share an id)
 NegInit == \E i \in DOMAIN Catalog[1].ops : Start([e |-> 1, u |-> 0, i |-> i, doc |-> Catalog[1].ops[i].doc, vars |-> Catalog[1].ops[i].vars])
